@@ -227,6 +227,7 @@ package client
 //@   ensures [err] err != nil ==> res == err
 //@   ensures [futures-resolved] !old(c.futureStore.protected) ==> len(c.futureStore.store) == 0 && forall k packet.ID {old(c.futureStore.store)[k]} :: old(has(c.futureStore.store, k)) ==> old(c.futureStore.store)[k].done
 //@   ensures [connect-future] old(c.state) < 2 && c.connectFuture != nil ==> c.connectFuture.done
+//@   ensures [done-mono] c.connectFuture == old(c.connectFuture) && (c.connectFuture != nil && old(c.connectFuture.done) ==> c.connectFuture.done)
 //@   ensures [unlocked] held == old(held)
 //@   ensures [started] tstarted == old(tstarted)
 //@   modifies c.state, nclose, saved, nreset, c.futureStore.store, any(future.Future.result), any(future.Future.done), fclosed, held
@@ -250,21 +251,28 @@ package client
 //@ func (c *Client) end(err error, possiblyClosed bool) (res error)
 //@   requires [client] c.conn != nil && c.Session != nil && store_ok(c) && cf_ok(c)
 //@   requires [invariant] c.started ==> tstarted[c.tomb] > 0
+//@   requires [cf-done] cf_done(c)
 //@   ensures [state] c.state == 5
 //@   ensures [unlocked] held == old(held)
+//@   ensures [connect-future] old(c.connectFuture) != nil ==> old(c.connectFuture).done
 //@   modifies everything
 
 // Object invariant of a Client (established by Connect, the only writer of
 // Client.started): started ==> the processor goroutine has been started on
 // the tomb; end waits for the tomb only if started, so Close and Disconnect
 // return.
-//@ spec pred api_inv(c *Client) = (c.started ==> tstarted[c.tomb] > 0) && (c.state >= 1 ==> c.conn != nil && c.Session != nil && store_ok(c) && cf_ok(c)) && c.futureStore != nil && c.Session != nil
+//@ spec pred api_inv(c *Client) = (c.started ==> tstarted[c.tomb] > 0) && (c.state >= 1 ==> c.conn != nil && c.Session != nil && store_ok(c) && cf_ok(c)) && c.futureStore != nil && c.Session != nil && cf_done(c)
+// Once the CONNACK has been processed the connect future is resolved (the
+// processor completes it right after raising the state; see DESIGN on the
+// window in between).
+//@ spec pred cf_done(c *Client) = c.state >= 2 && c.connectFuture != nil ==> c.connectFuture.done
 //
 //@ func (c *Client) Close() (err error)
 //@   requires [unlocked] held[c.mutex] == 0
 //@   requires [invariant] api_inv(c) && store_ok(c)
 //@   ensures [released] held[c.mutex] == 0
 //@   ensures [closed] old(c.state) >= 1 ==> c.state == 5
+//@   ensures [connect-future] old(c.state) >= 1 && old(c.connectFuture) != nil ==> old(c.connectFuture).done
 //@   modifies everything
 //@ func (c *Client) Disconnect(timeout []time.Duration) (err error)
 //@   requires [unlocked] held[c.mutex] == 0
